@@ -210,6 +210,12 @@ func buildMode(t *tmpl, bp []*pop) int {
 }
 
 // checkBytes serialises the live message and applies the property's oracle for the population.
+// bytes handed out by earlier serialisations of the message under test (a frame queued for the
+// transport is such a slice): they must still read what they read when they were returned
+type heldBytes struct{ live, snap []byte }
+
+var held []heldBytes
+
 func checkBytes(R *vlib.Out, prop string, t *tmpl, hp, bp, tp []*pop, m *fix.Message, rp serReplay, stage string) bool {
 	out, err, pan := safeToBytes(m)
 	if pan != "" {
@@ -220,6 +226,17 @@ func checkBytes(R *vlib.Out, prop string, t *tmpl, hp, bp, tp []*pop, m *fix.Mes
 		R.Violate(stage+"ToBytes-error", err.Error()+" "+describe(t), rp)
 		return false
 	}
+	if stage == "" {
+		held = held[:0]
+	}
+	for _, h := range held {
+		if !bytes.Equal(h.live, h.snap) {
+			R.Violate("earlier-serialisation-overwritten", fmt.Sprintf("%s bytes returned by an earlier ToBytes read %s after a later serialisation of the same message (were %s) %s",
+				stage, vlib.Show(h.live), vlib.Show(h.snap), describe(t)), rp)
+			return false
+		}
+	}
+	held = append(held, heldBytes{out, append([]byte{}, out...)})
 	fs, ok := tokenize(out)
 	switch prop {
 	case "C01":
